@@ -82,12 +82,16 @@ func runCTwin(c *ctx) error {
 		n = 6000
 	}
 	hist := map[string]int{}
+	fixed := indexEntryCases()
 	for i := 0; i < n; i++ {
 		o := genOpts{maxRefs: 100, maxLogs: 30, smallBlocks: c.rng.Intn(3) > 0, sharedOids: c.rng.Intn(3) > 0}
 		if c.rng.Intn(4) == 0 {
 			o.maxRefs = 400 // many refs per object id: multi-block object index, dropped position lists
 		}
 		t := genTable(c.rng, o)
+		if i < len(fixed) {
+			t = fixed[i] // keys that nearly fill a block: both writers must refuse them
+		}
 		if !nulFree(&t) {
 			continue
 		}
